@@ -1,4 +1,154 @@
-import IsoDT.Model.Recurrence
+/-
+  C14 — Recurrences are values: shifting, equality, hashing (text round trip: see C07/C08 layer).
+
+  `Model.Rec.shift` mirrors `TimeRecurrence.__add__(Duration)` (and `__sub__`, `Duration + rec`
+  which dispatch to it); `Model.Rec.eq` / `Rec.hashKey` mirror `__eq__` / `__hash__`.
+-/
+import IsoDT.Props.C12
+
 namespace IsoDT.Props.C14
-theorem placeholder : (1 : Nat) = 1 := rfl
+open IsoDT IsoDT.Model IsoDT.Lemmas IsoDT.Props.C12
+open IsoDT.Spec (Date TZ TP)
+
+/-- **Shifting a start/duration recurrence (`n ≥ 2`, exact interval) by an exact `x`**: the result
+    is the recurrence with the same repetitions and interval whose start is moved by `x`; hence
+    (C12) its `n` points are the original points each moved by exactly `x`. -/
+theorem C14_shift_start_duration (m : Mode) (n : Nat) (s : TP) (d x : Dur) (hn : 2 ≤ n) (hs : s.Valid m)
+    (hex : d.isExact = true) (hpos : 0 < d.exactSeconds m) (hx : x.isExact = true)
+    (fuel : Nat) (hf : n ≤ fuel) :
+    ∃ r r' s', mkRec m (some (n : Int)) (some s) (some d) none = some r ∧
+      addDur m s x = some s' ∧ s'.inst m = s.inst m + x.exactSeconds m ∧
+      r.shift m x = some r' ∧ r'.reps = some (n : Int) ∧ r'.dur = some d ∧ r'.start = some s' ∧
+      (iter m r fuel).length = n ∧ (iter m r' fuel).length = n ∧
+      SeriesOK m s.date.rep s.tz (iter m r fuel) (s.inst m) (d.exactSeconds m) ∧
+      SeriesOK m s.date.rep s.tz (iter m r' fuel) (s.inst m + x.exactSeconds m) (d.exactSeconds m) := by
+  obtain ⟨r, hr, hlen, _, hser⟩ := C12_start_duration_bounded m n s d hn hs hex hpos fuel hf
+  obtain ⟨e, hr0, _⟩ := mkRec_fmt3_bounded m n s d (by omega) hs hex hpos
+  rw [hr] at hr0
+  have hre : r = ⟨some (n : Int), some s, some d, some e, none, 3⟩ := by simpa using hr0
+  obtain ⟨s', hs', g⟩ := addDur_exact m s x hs hx
+  obtain ⟨r', hr', hlen', _, hser'⟩ := C12_start_duration_bounded m n s' d hn g.strict.1 hex hpos fuel hf
+  obtain ⟨e', hr1, _⟩ := mkRec_fmt3_bounded m n s' d (by omega) g.strict.1 hex hpos
+  rw [hr'] at hr1
+  have hre' : r' = ⟨some (n : Int), some s', some d, some e', none, 3⟩ := by simpa using hr1
+  refine ⟨r, r', s', hr, hs', g.inst, ?_, by rw [hre'], by rw [hre'], by rw [hre'], hlen, hlen', hser, ?_⟩
+  · rw [hre]
+    simp only [Rec.shift, hs', Option.bind_some, Option.getD_some, hr']
+  · rw [g.rep, g.tz, g.inst] at hser'; exact hser'
+
+/-- **Single-point recurrences keep their anchor when shifted** (repaired defect F4): one
+    repetition (or a zero interval) in start/duration or duration/end notation. -/
+theorem C14_shift_single (m : Mode) (s : TP) (x : Dur) (hs : s.Valid m) (hx : x.isExact = true) :
+    ∃ s', addDur m s x = some s' ∧ s'.inst m = s.inst m + x.exactSeconds m ∧
+      (⟨some 1, some s, none, some s, none, 3⟩ : Rec).shift m x =
+        some ⟨some 1, some s', none, some s', none, 3⟩ ∧
+      (⟨some 1, some s, none, some s, none, 4⟩ : Rec).shift m x =
+        some ⟨some 1, some s', none, some s', none, 4⟩ := by
+  obtain ⟨s', hs', g⟩ := addDur_exact m s x hs hx
+  refine ⟨s', hs', g.inst, ?_, ?_⟩
+  · have := (C12_single m (some 1) s' Dur.zero zero_exact (by rw [zero_seconds]; omega)
+      (fun n h => by cases h; omega) (Or.inl rfl) 1 (by omega)).1
+    simp only [Rec.shift, hs', Option.bind_some, Option.getD_none, this]
+  · simp only [Rec.shift, hs', Option.bind_some, Option.getD_none]
+    unfold mkRec
+    simp [lt_zero_false m Dur.zero zero_exact (by rw [zero_seconds]; omega)]
+
+/-! ### equality and hashing -/
+
+theorem optTpEq_iff (m : Mode) (a b : Option TP) (ha : ∀ x, a = some x → x.Valid m)
+    (hb : ∀ x, b = some x → x.Valid m) :
+    optTpEq m a b = true ↔ (a = none ∧ b = none) ∨ ∃ x y, a = some x ∧ b = some y ∧ x.inst m = y.inst m := by
+  cases a <;> cases b <;> simp only [optTpEq]
+  · simp
+  · simp
+  · simp
+  · rename_i x y
+    rw [tpEq_iff m x y (ha x rfl) (hb y rfl)]
+    simp
+
+/-- **Equality of recurrences**: repetitions equal, start points at the same instant (or both
+    absent), end points likewise, intervals equal as durations.  So recurrences that differ in
+    repetitions, start, end or interval are unequal. -/
+theorem C14_eq_iff (m : Mode) (a b : Rec)
+    (hva : (∀ x, a.start = some x → x.Valid m) ∧ (∀ x, a.end_ = some x → x.Valid m))
+    (hvb : (∀ x, b.start = some x → x.Valid m) ∧ (∀ x, b.end_ = some x → x.Valid m)) :
+    Rec.eq m a b = true ↔
+      a.reps = b.reps ∧
+      ((a.start = none ∧ b.start = none) ∨ ∃ x y, a.start = some x ∧ b.start = some y ∧ x.inst m = y.inst m) ∧
+      ((a.end_ = none ∧ b.end_ = none) ∨ ∃ x y, a.end_ = some x ∧ b.end_ = some y ∧ x.inst m = y.inst m) ∧
+      optDurEq m a.dur b.dur = true := by
+  unfold Rec.eq
+  simp only [Bool.and_eq_true, beq_iff_eq]
+  rw [optTpEq_iff m _ _ hva.1 hvb.1, optTpEq_iff m _ _ hva.2 hvb.2]
+  constructor
+  · rintro ⟨⟨⟨h1, h2⟩, h3⟩, h4⟩; exact ⟨h1, h2, h3, h4⟩
+  · rintro ⟨h1, h2, h3, h4⟩; exact ⟨⟨⟨h1, h2⟩, h3⟩, h4⟩
+
+theorem durHashKey_eq (m : Mode) (a : Dur) : Dur.hashKey m a = ((durYm a).1, (durYm a).2, a.exactSeconds m) := by
+  cases a <;> rfl
+
+/-- **Equal recurrences have equal hashes** (hash keys of their components agree). -/
+theorem C14_hash (m : Mode) (a b : Rec)
+    (hva : (∀ x, a.start = some x → x.Valid m) ∧ (∀ x, a.end_ = some x → x.Valid m))
+    (hvb : (∀ x, b.start = some x → x.Valid m) ∧ (∀ x, b.end_ = some x → x.Valid m))
+    (h : Rec.eq m a b = true) : Rec.hashKey m a = Rec.hashKey m b := by
+  obtain ⟨h1, h2, h3, h4⟩ := (C14_eq_iff m a b hva hvb).mp h
+  unfold Rec.hashKey
+  have k2 : a.start.map (Model.hashKey m) = b.start.map (Model.hashKey m) := by
+    rcases h2 with ⟨x, y⟩ | ⟨x, y, hx, hy, hi⟩
+    · rw [x, y]
+    · rw [hx, hy]
+      simp only [Option.map_some]
+      rw [(hashKey_eq_of_inst_eq m x y (hva.1 x hx) (hvb.1 y hy) hi).1]
+  have k3 : a.end_.map (Model.hashKey m) = b.end_.map (Model.hashKey m) := by
+    rcases h3 with ⟨x, y⟩ | ⟨x, y, hx, hy, hi⟩
+    · rw [x, y]
+    · rw [hx, hy]
+      simp only [Option.map_some]
+      rw [(hashKey_eq_of_inst_eq m x y (hva.2 x hx) (hvb.2 y hy) hi).1]
+  have k4 : a.dur.map (Dur.hashKey m) = b.dur.map (Dur.hashKey m) := by
+    cases ha : a.dur with
+    | none =>
+      cases hb : b.dur with
+      | none => rfl
+      | some y => rw [ha, hb] at h4; simp [optDurEq] at h4
+    | some x =>
+      cases hb : b.dur with
+      | none => rw [ha, hb] at h4; simp [optDurEq] at h4
+      | some y =>
+        rw [ha, hb] at h4
+        have := (dur_eq_iff m x y).mp h4
+        simp only [Option.map_some]
+        rw [durHashKey_eq, durHashKey_eq, this.1, this.2]
+  rw [h1, k2, k3, k4]
+
+/-- **(r + x) − x == r** for an exact `x` (start/duration, `n ≥ 2`, exact interval). -/
+theorem C14_shift_inverse (m : Mode) (n : Nat) (s : TP) (d x : Dur) (hn : 2 ≤ n) (hs : s.Valid m)
+    (hex : d.isExact = true) (hpos : 0 < d.exactSeconds m) (hx : x.isExact = true) :
+    ∃ r r1 r2, mkRec m (some (n : Int)) (some s) (some d) none = some r ∧ r.shift m x = some r1 ∧
+      r1.shift m (x.mul (-1)) = some r2 ∧ Rec.eq m r2 r = true := by
+  obtain ⟨e, hr, es, ei, _, _⟩ := mkRec_fmt3_bounded m n s d (by omega) hs hex hpos
+  obtain ⟨s1, hs1, g1⟩ := addDur_exact m s x hs hx
+  obtain ⟨e1, hr1, es1, ei1, _, _⟩ := mkRec_fmt3_bounded m n s1 d (by omega) g1.strict.1 hex hpos
+  obtain ⟨s2, hs2, g2⟩ := addDur_exact m s1 (x.mul (-1)) g1.strict.1 (mul_exact x _ hx)
+  obtain ⟨e2, hr2, es2, ei2, _, _⟩ := mkRec_fmt3_bounded m n s2 d (by omega) g2.strict.1 hex hpos
+  have hi2 : s2.inst m = s.inst m := by
+    rw [g2.inst, g1.inst, mul_exactSeconds]; omega
+  refine ⟨⟨some (n : Int), some s, some d, some e, none, 3⟩, ⟨some (n : Int), some s1, some d, some e1, none, 3⟩,
+    ⟨some (n : Int), some s2, some d, some e2, none, 3⟩, hr, ?_, ?_, ?_⟩
+  · simp only [Rec.shift, hs1, Option.bind_some, Option.getD_some, hr1]
+  · simp only [Rec.shift, hs2, Option.bind_some, Option.getD_some, hr2]
+  · rw [C14_eq_iff m _ _ ⟨fun y h => by cases h; exact g2.strict.1, fun y h => by cases h; exact es2.1⟩
+      ⟨fun y h => by cases h; exact hs, fun y h => by cases h; exact es.1⟩]
+    refine ⟨rfl, Or.inr ⟨s2, s, rfl, rfl, hi2⟩, Or.inr ⟨e2, e, rfl, rfl, by rw [ei2, ei, hi2]⟩, ?_⟩
+    simp only [optDurEq]
+    exact (dur_eq_iff m d d).mpr ⟨rfl, rfl⟩
+
+/-! ## Non-vacuity: the witness of the repaired defect F4 -/
+
+example : (⟨some 1, some ⟨.cal 2002 5 4, 23, 0, 0, ⟨0, 0⟩⟩, none, some ⟨.cal 2002 5 4, 23, 0, 0, ⟨0, 0⟩⟩,
+    none, 4⟩ : Rec).shift .greg (.units 0 0 0 1 0 0) =
+    some ⟨some 1, some ⟨.cal 2002 5 5, 0, 0, 0, ⟨0, 0⟩⟩, none, some ⟨.cal 2002 5 5, 0, 0, 0, ⟨0, 0⟩⟩,
+    none, 4⟩ := by decide +kernel
+
 end IsoDT.Props.C14
